@@ -20,7 +20,106 @@ ASSUMPTIONS = ["copy independence is structural in a pure model (a copied value 
                "twins are separately constructed, identically seeded instances of the same expression"]
 
 
+
+def float_len_and_shared_copy_cases(ctx):
+    """Two oracles on the implementation alone (no model: the first is about float accumulation, the second about object
+    sharing, both invisible to an exact, pure model):
+    (1) helpers agree also for progressions with inexact float steps (PRange(0, 1, 0.1) ...): len(p), all(), nextn(big),
+        a for-loop and repeated next() must deliver the same number of values;
+    (2) a copy continues like the original even when the original reaches ONE stateful sub-pattern through two
+        attributes (src + src * 10, PStutter(src, src) ...): the copy must keep that sharing."""
+    from .. import common
+    common.ensure_repo_on_path()
+    import isobar as iso
+    r = ctx.rng
+    for i in range(ctx.scale(150, 4000)):
+        kind = r.choice(["range", "range", "series", "geom"])
+        step = r.choice([0.1, 0.2, 0.3, 0.7, 1 / 3, 0.05, 1.1]) * r.choice([1, 1, -1])
+        start = r.choice([0, 0.0, 1, -2, 0.5])
+        n = r.randint(1, 30)
+        if kind == "range":
+            end = start + step * n if r.random() < 0.7 else start + step * n + step / 2
+            mk = lambda: iso.PRange(start, end, step)
+        elif kind == "series":
+            mk = lambda: iso.PSeries(start, step, n)
+        else:
+            mk = lambda: iso.PGeom(r.choice([1, 2, 0.5]), abs(step) + 1, n)
+        try:
+            a = len(mk())
+            b = len(mk().all())
+            c = len(mk().nextn(5000))
+            d = sum(1 for _ in mk())
+            p = mk()
+            e = 0
+            try:
+                for _ in range(5000):
+                    next(p)
+                    e += 1
+            except StopIteration:
+                pass
+        except Exception as ex:
+            ctx.violation("C09:helpers:float-step:raised", "%s with step %r raised %s" % (kind, step, type(ex).__name__), {"suite": "float-len", "kind": kind, "start": start, "step": step, "n": n})
+            continue
+        ctx.case(("float-len", kind, start, step, n), nontrivial=True, validated=False,
+                 sample={"float_step_helpers": {"class": kind, "start": start, "step": step, "values": e}} if i < 2 else None)
+        ctx.count("float-len:" + kind)
+        if not (a == b == c == d == e):
+            ctx.violation("C09:helpers:float-step:" + kind,
+                          "%s(start=%r, step=%r, n/end=%r): len()=%d, all()=%d, nextn()=%d, for-loop=%d, next()=%d values" % (kind, start, step, n, a, b, c, d, e),
+                          {"suite": "float-len", "kind": kind, "start": start, "step": step, "n": n})
+    for i in range(ctx.scale(150, 4000)):
+        vals = [r.randint(-9, 9) for _ in range(r.randint(2, 7))]
+        shape = r.choice(["a+a*10", "stutter(a,a)", "skipif(a,a)", "a-a", "seq[a,a]", "a+(a+a)"])
+
+        def mk():
+            src = iso.PSequence(list(vals), r_rep)
+            if shape == "a+a*10":
+                return src + src * 10
+            if shape == "stutter(a,a)":
+                return iso.PStutter(src, iso.PAbs(src) + 1)
+            if shape == "skipif(a,a)":
+                return iso.PSkipIf(src, src > 0)
+            if shape == "a-a":
+                return src - src
+            if shape == "seq[a,a]":
+                return iso.PSequence([src, src, 100], 3)
+            return src + (src + src)
+        r_rep = r.randint(1, 3)
+        k = r.randint(0, 6)
+        n = r.randint(3, 12)
+
+        def take(p, m):
+            out = []
+            for _ in range(m):
+                try:
+                    out.append(repr(next(p)))
+                except StopIteration:
+                    out.append("stop")
+                except Exception as ex:
+                    out.append("err:" + type(ex).__name__)
+            return out
+        orig, twin = mk(), mk()
+        take(orig, k)
+        take(twin, k)
+        cp = orig.copy()
+        got_copy = take(cp, n)
+        got_twin = take(twin, n)
+        got_orig = take(orig, n)          # advancing the copy must not have advanced the original
+        ctx.case(("shared-copy", shape, tuple(vals), r_rep, k, n), nontrivial=True, validated=False,
+                 sample={"shared_copy": {"shape": shape, "values": vals, "position": k}} if i < 2 else None)
+        ctx.count("shared-copy:" + shape)
+        if got_copy != got_twin:
+            ctx.violation("C09:copy:shared-subpattern:" + shape,
+                          "%s over %s x%d: after %d steps a copy yields %s, the original would yield %s" % (shape, vals, r_rep, k, got_copy[:8], got_twin[:8]),
+                          {"suite": "shared-copy", "shape": shape, "values": vals, "repeats": r_rep, "position": k})
+        elif got_orig != got_twin:
+            ctx.violation("C09:copy:not-independent:" + shape,
+                          "%s: advancing the copy changed the original: %s vs %s" % (shape, got_orig[:8], got_twin[:8]),
+                          {"suite": "shared-copy", "shape": shape, "values": vals, "repeats": r_rep, "position": k})
+
+
 def run(ctx):
+    float_len_and_shared_copy_cases(ctx)
     classes = pat_props.focus_classes()
     n_cases = ctx.scale(2500, 250000)
     scripts, meta = [], {}
